@@ -209,11 +209,11 @@ type Summary struct {
 
 // Engine caches per-function facts and summaries.
 type Engine struct {
-	P       *Prog
-	facts   map[string]*FnFacts
-	sums    map[string]*Summary
-	busy    map[string]bool
-	NonNil  func(fn *ssa.Function) bool // extra non-nil error constructors
+	P        *Prog
+	facts    map[string]*FnFacts
+	sums     map[string]*Summary
+	busy     map[string]bool
+	NonNil   func(fn *ssa.Function) bool // extra non-nil error constructors
 	Analysed map[*ssa.Function]bool
 }
 
@@ -364,7 +364,72 @@ func (ff *FnFacts) outOf(b *ssa.BasicBlock, in FactSet) FactSet {
 	return out
 }
 
+// mutableLoc reports whether a location term names memory that may be
+// written more than once (captured variables, multi-store locals, globals).
+func mutableLoc(t *Term) bool {
+	r := t.Root()
+	if r == nil {
+		return false
+	}
+	switch r.Op {
+	case "fv", "new", "global", "oparam":
+		return true
+	}
+	return false
+}
+
+func killMentioning(out FactSet, pred func(*Term) bool) {
+	for k, f := range out {
+		hit := false
+		chk := func(t *Term) {
+			if t != nil && !hit && t.Contains(pred) {
+				hit = true
+			}
+		}
+		chk(f.A)
+		chk(f.B)
+		for _, t := range f.List {
+			chk(t)
+		}
+		if hit {
+			delete(out, k)
+		}
+	}
+}
+
+// kill removes facts invalidated by ins (E1 side condition: a fact about a
+// memory location does not survive a write to it; facts about captured
+// variables do not survive calls, which may run closures that write them).
+func (ff *FnFacts) kill(ins ssa.Instruction, out FactSet) {
+	switch x := ins.(type) {
+	case *ssa.Store:
+		loc := ff.TB.Of(x.Addr)
+		if mutableLoc(loc) {
+			ls := loc.String()
+			killMentioning(out, func(t *Term) bool { return t.Op == loc.Op && t.String() == ls })
+		}
+	case *ssa.MapUpdate:
+		ms := ff.TB.Of(x.Map).String()
+		for k, f := range out {
+			if (f.Kind == "hit" || f.Kind == "miss") && f.A.String() == ms {
+				delete(out, k)
+			}
+		}
+	case *ssa.Call:
+		if _, isB := x.Common().Value.(*ssa.Builtin); isB {
+			return
+		}
+		if len(ff.Fn.FreeVars) == 0 && !ff.hasClosures() {
+			return
+		}
+		killMentioning(out, func(t *Term) bool { return t.Op == "fv" })
+	}
+}
+
+func (ff *FnFacts) hasClosures() bool { return len(ff.Fn.AnonFuncs) > 0 }
+
 func (ff *FnFacts) genInstr(ins ssa.Instruction, out FactSet) {
+	ff.kill(ins, out)
 	switch x := ins.(type) {
 	case *ssa.Call:
 		t := ff.TB.Of(x)
@@ -573,6 +638,11 @@ func (ff *FnFacts) okFail(ct *Term, isNil bool) []Fact {
 		out = append(out, set.Sorted()...)
 	}
 	return out
+}
+
+// CalleeCtx is the exported form of calleeCtx.
+func (ff *FnFacts) CalleeCtx(c *ssa.CallCommon, callee *ssa.Function) Ctx {
+	return ff.calleeCtx(c, callee)
 }
 
 // calleeCtx derives the callee context from constant / assumed bool arguments.
